@@ -5,7 +5,7 @@
 From CV Require Import Base.Bytes Base.Glob Supp.Defs Par.Gen_Severity Par.Defs Par.DecProofs
                        Par.CodecProofs Par.MergeProofs.
 From CV Require Import Par.SupprWire Par.SupprWireProofs.
-From CV Require Supp.ListProofs Supp.ExecDefs Supp.ExecProofs Supp.ThreadProofs Par.EqSingle Par.EqProcess Par.EqWitness Par.EqSchedule.
+From CV Require Supp.ListProofs Supp.ExecDefs Supp.ExecProofs Supp.ThreadProofs Par.EqSingle Par.EqProcess Par.EqWitness Par.EqSchedule Par.EqMultiset.
 Require Import Permutation.
 
 (* the receiving side holds the sender's message with fixInvalidChars applied to
@@ -155,7 +155,7 @@ Proof. exact ws_ok_inhabited. Qed.
    logger, hasToLog, state transfer, whole-program findings through the main logger,
    unmatched-suppression reports, final status) *)
 Module EQ.
-Import Supp.ListProofs Supp.ExecDefs Supp.ExecProofs Supp.ThreadProofs Par.EqSingle Par.EqProcess Par.EqWitness Par.EqSchedule.
+Import Supp.ListProofs Supp.ExecDefs Supp.ExecProofs Supp.ThreadProofs Par.EqSingle Par.EqProcess Par.EqWitness Par.EqSchedule Par.EqMultiset.
 
 (* the same set of texts reaches the output (StdLogger prints each text once), thread and process *)
 Theorem C15_parallel_reported_eq_single pm k cfg n f fs wp o1 o2 :
@@ -164,6 +164,14 @@ Theorem C15_parallel_reported_eq_single pm k cfg n f fs wp o1 o2 :
   forall t, In t (map snd (o_reported o1)) <-> In t (map snd (o_reported o2)).
 Proof. exact (parallel_reported_eq_single pm k cfg n f fs wp o1 o2). Qed.
 Print Assumptions C15_parallel_reported_eq_single.
+
+(* ... hence the same multiset of printed findings (StdLogger prints each rendered text once) *)
+Theorem C15_parallel_printed_eq_single pm k cfg n f fs wp o1 o2 :
+  whole_run pm None cfg n f fs wp = Some o1 -> whole_run pm (Some k) cfg n f fs wp = Some o2 ->
+  Forall (inline_present n) fs -> Forall macro_local n ->
+  Permutation (printed o1) (printed o2).
+Proof. intros H1 H2 Hi Hm. exact (printed_perm o1 o2 (parallel_reported_eq_single pm k cfg n f fs wp o1 o2 H1 H2 Hi Hm)). Qed.
+Print Assumptions C15_parallel_printed_eq_single.
 
 Theorem C15_parallel_status_eq_single pm k cfg n f fs wp o1 o2 :
   whole_run pm None cfg n f fs wp = Some o1 -> whole_run pm (Some k) cfg n f fs wp = Some o2 ->
